@@ -82,7 +82,15 @@ func (t *Term) String() string {
 			for i, a := range t.Args {
 				parts[i] = a.String()
 			}
-			s = t.Op + "(" + strings.Join(parts, ", ") + ")"
+			if t.Op == "agg" {
+				if nf, ok := endianNormalForm(parts); ok {
+					s = nf
+				} else {
+					s = t.Op + "(" + strings.Join(parts, ", ") + ")"
+				}
+			} else {
+				s = t.Op + "(" + strings.Join(parts, ", ") + ")"
+			}
 		}
 	}
 	if len(s) > MaxTermString {
@@ -188,4 +196,42 @@ func (p *Path) LitString() string {
 		}
 	}
 	return strings.Join(parts, " ∧ ")
+}
+
+// endianNormalForm gives the two spellings of a fixed-width integer encoding one rendering:
+//   - four bytes byte(x), byte(x>>8), byte(x>>16), byte(x>>24) are binary.LittleEndian.PutUint32
+//     (the form the Merlin length prefixes are written in);
+//   - binary.BigEndian.PutUint16 into a two-byte window is byte(x>>8), byte(x) (the form the
+//     I2OSP(len, 2) prefixes of RFC 9380 are written in).
+func endianNormalForm(parts []string) (string, bool) {
+	if len(parts) == 4 && strings.HasPrefix(parts[0], "[0]=(byte(") && strings.HasSuffix(parts[0], "))") {
+		x := parts[0][len("[0]=(byte(") : len(parts[0])-2]
+		if parts[1] == "[1]=(byte(("+x+" >> 8)))" && parts[2] == "[2]=(byte(("+x+" >> 16)))" && parts[3] == "[3]=(byte(("+x+" >> 24)))" {
+			if strings.HasPrefix(x, "uint32(") && strings.HasSuffix(x, ")") {
+				return "out1(littleEndian.PutUint32(@binary.LittleEndian, zero, " + x + "))", true
+			}
+			return "out1(littleEndian.PutUint32(@binary.LittleEndian, zero, uint32(" + x + ")))", true
+		}
+	}
+	changed := false
+	var out []string
+	for _, p := range parts {
+		const pre, mid = "[", "]=(out1(bigEndian.PutUint16(@binary.BigEndian, zero, uint16("
+		i := strings.Index(p, mid)
+		if strings.HasPrefix(p, pre) && i > 0 && strings.HasSuffix(p, "))))") {
+			var a, b int
+			if n, _ := fmt.Sscanf(p[1:i], "%d:%d", &a, &b); n == 2 && b == a+2 {
+				x := p[i+len(mid) : len(p)-4]
+				out = append(out, fmt.Sprintf("[%d]=(byte((%s >> 8)))", a, x), fmt.Sprintf("[%d]=(byte(%s))", a+1, x))
+				changed = true
+				continue
+			}
+		}
+		out = append(out, p)
+	}
+	if !changed {
+		return "", false
+	}
+	sort.Strings(out)
+	return "agg(" + strings.Join(out, ", ") + ")", true
 }
